@@ -156,9 +156,9 @@ func (fr *Frame) sortPermute(st *State, s Term, et types.Type, argVal ssa.Value)
 	u.assume(st.pc, Forall([]Term{i}, Implies(inR(i), And(inR(p(i)), Eq(q(p(i)), i))), []Term{p(i)}))
 	u.assume(st.pc, Forall([]Term{i}, Implies(inR(i), And(inR(q(i)), Eq(p(q(i)), i))), []Term{q(i)}))
 	sz := int64(w.sizeOf(et))
-	at := func(idx Term) Term { return MkLoc(Obj(SPtr(s)), Add(Off(SPtr(s)), Mul(idx, IntLit(sz)))) }
+	at := func(idx Term) Term { return Elem(SPtr(s), Mul(idx, IntLit(sz))) }
 	if sz == 1 {
-		at = func(idx Term) Term { return MkLoc(Obj(SPtr(s)), Add(Off(SPtr(s)), idx)) }
+		at = func(idx Term) Term { return Elem(SPtr(s), idx) }
 	}
 	l := Sym("l!", SLoc)
 	for _, c := range fr.leafCellsOf(et) {
